@@ -354,8 +354,12 @@ def run(ctx, eng):
                                  'ATOM.window'},
                'what one side sends within its view of the windows the '
                'other side accepts: both sides charge the same amount')
-    cm.include(ctx, eng, 'C04', {'FLOW.charge', 'ARITH.consume'},
-               'the receiver charges exactly the flow-controlled length')
+    cm.include(ctx, eng, 'C04', {'FLOW.charge', 'ARITH.consume',
+                                 'FLOW.delta'},
+               'the receiver charges exactly the flow-controlled length, and '
+               'moves every stream window by exactly the acknowledged change '
+               'of INITIAL_WINDOW_SIZE: what the peer may then send is what '
+               'is accepted')
     cm.include(ctx, eng, 'C23', {'FLOW.priority-frame',
                                  'FLOW.priority-handler', 'PAIR.reassembly'},
                'priority fields arrive as sent')
